@@ -11,6 +11,7 @@ see the observation strings themselves (replay diagnosis).
 import hashlib
 import itertools
 import os
+import zlib
 
 from ..framework import Prop, mk, exc_family, ensure_repo_on_path
 
@@ -79,6 +80,11 @@ def p_wit(s):
 def p_hdr(s):
     v, p, m, t, b, n = s.split(',')
     return (int(v), bytes.fromhex(p), bytes.fromhex(m), int(t), int(b), int(n))
+
+
+def cheap_digest(b):
+    """transport compression of an observation string (CRC-32 ‖ Adler-32; the driver computes the same)"""
+    return '%08x%08x' % (zlib.crc32(b) & 0xffffffff, zlib.adler32(b) & 0xffffffff)
 
 
 def p_target(s):
@@ -420,6 +426,20 @@ class World:
             if self.kind(pr) != 0:
                 return 'na', None
             return 'created', C.CMutableTxIn(pr, SC.CScript(bytes.fromhex(w[2])), int(w[3]))
+        if k in ('gethdr', 'newblkfrom'):
+            o = self.resolve(p_target(w[1]))
+            if self.is_seq(o) or not isinstance(o, C.CBlockHeader):
+                return 'na', None
+            if k == 'gethdr':
+                if isinstance(o, C.CBlock):
+                    return 'created', o.get_header()
+                return 'created', C.CBlockHeader(o.nVersion, o.hashPrevBlock, o.hashMerkleRoot, o.nTime, o.nBits,
+                                                 o.nNonce)
+            txs = [self.root_tx(int(x)) for x in (w[2].split(',') if w[2] else [])]
+            if any(t is None for t in txs):
+                raise BadRef()
+            return 'created', C.CBlock(o.nVersion, o.hashPrevBlock, o.hashMerkleRoot, o.nTime, o.nBits, o.nNonce,
+                                       vtx=txs)
         if k == 'newcin':       # D23: the immutable class, given a caller's (possibly mutable) outpoint object
             sc, q = SC.CScript(bytes.fromhex(w[2])), int(w[3])
             if w[1] == '-':
@@ -524,42 +544,91 @@ class World:
         for i, k in enumerate(self.kids(o)):
             self.walk(k, path + [i], out)
 
-    def observe(self):
-        C = self.C
-        live = []
+    def live(self):
+        out = []
         for u, o in enumerate(self.names):
             if o is not None:
                 targets = []
                 self.walk(o, [], targets)
                 if targets:
-                    live.append((u, o, targets))
+                    out.append((u, o, targets))
+        return out
+
+    def eq_sym(self, a, b):
+        """'1' / '0' / 'e' as the model answers; 'N' if `!=` is not the negation of `==`, 'H' if a == b but the
+        Python hashes differ (neither can be produced by the model)"""
+        try:
+            e = (a == b)
+        except Exception:  # noqa: BLE001
+            try:
+                a != b
+                return 'N'
+            except Exception:  # noqa: BLE001
+                return 'e'
+        try:
+            ne = (a != b)
+        except Exception:  # noqa: BLE001
+            return 'N'
+        if e is not True and e is not False or bool(ne) == bool(e):
+            return 'N'
+        if e and hash(a) != hash(b):
+            return 'H'
+        return '1' if e else '0'
+
+    END_CAP = 40
+
+    def end_matrix(self):
+        """`==` (with `!=` and eq/hash coherence) for all ordered pairs of the first END_CAP live objects"""
+        objs = [o for _, _, targets in self.live() for _, o in targets][:self.END_CAP]
+        return '/'.join(''.join(self.eq_sym(a, b) for b in objs) for a in objs)
+
+    def observe(self, rev=False):
+        """rev: the observers of one object are called in the opposite order (==, hash() first, GetHash later)"""
+        C = self.C
+        live = self.live()
         strs = []
         first = {}
         pyc = []
         for u, root, targets in live:
             for path, o in targets:
-                ser = self.res(lambda: hashlib.sha256(o.serialize()).digest()[:8].hex())
-                gh = self.res(lambda: bytes(o.GetHash())[:8].hex())
-                txid = self.res(lambda: bytes(o.GetTxid())[:8].hex()) if isinstance(o, C.CTransaction) else '-'
-                try:
-                    hv = hash(o)
+                fam = self.family(o)
+
+                def f_eq():
+                    return self.eq(o, first[fam]) if fam in first else '-'
+
+                def f_py():
+                    try:
+                        return hash(o)
+                    except Exception as e:  # noqa: BLE001
+                        return 'err:' + exc_family(e)
+
+                def f_txid():
+                    return self.res(lambda: bytes(o.GetTxid())[:8].hex()) if isinstance(o, C.CTransaction) else '-'
+
+                def f_gh():
+                    return self.res(lambda: bytes(o.GetHash())[:8].hex())
+
+                def f_ser():
+                    return self.res(lambda: cheap_digest(o.serialize()))
+                if rev:
+                    eqs, hv, txid, gh, ser = f_eq(), f_py(), f_txid(), f_gh(), f_ser()
+                else:
+                    ser, gh, txid, hv, eqs = f_ser(), f_gh(), f_txid(), f_py(), f_eq()
+                if isinstance(hv, str):
+                    py = hv
+                else:
                     if hv not in pyc:
                         pyc.append(hv)
                     py = str(pyc.index(hv))
-                except Exception as e:  # noqa: BLE001
-                    py = 'err:' + exc_family(e)
-                fam = self.family(o)
-                if fam in first:
-                    eqs = self.eq(o, first[fam])
-                else:
+                if fam not in first:
                     first[fam] = o
-                    eqs = '-'
                 strs.append('%s:%s:%s:%s:%s:%s:%s' % ('.'.join(str(x) for x in [u] + path), self.flag(o), ser, gh,
                                                       txid, py, eqs))
         bits = ''
-        for (i, (u, a, _)) in enumerate(live):
-            for (v, b, _) in live[i + 1:]:
-                e = 'na' if self.is_seq(a) or self.is_seq(b) else self.eq(a, b)
+        live_m = live[-16:]         # the 16 most recent live roots (the end matrix takes the oldest objects)
+        for (i, (u, a, _)) in enumerate(live_m):
+            for (v, b, _) in live_m[i + 1:]:
+                e = 'na' if self.is_seq(a) or self.is_seq(b) else (self.eq(b, a) if rev else self.eq(a, b))
                 bits += {'B:1': '1', 'B:0': '0'}.get(e, 'e')
         return ','.join(strs) + '#' + bits
 
@@ -567,10 +636,12 @@ class World:
 def run_history(mods, hist, verbose=False):
     w = World(mods)
     outs = []
-    for op in hist.split(';'):
+    for k, op in enumerate(hist.split(';')):
         o = w.step(op)
-        obs = w.observe()
-        outs.append(o + '#' + (obs if verbose else hashlib.sha256(obs.encode()).digest()[:8].hex()))
+        obs = w.observe(rev=(k % 2 == 1))
+        outs.append(o + '#' + (obs if verbose else cheap_digest(obs.encode())))
+    obs = w.end_matrix()
+    outs.append('end#' + (obs if verbose else cheap_digest(obs.encode())))
     return ';'.join(outs)
 
 
@@ -816,6 +887,14 @@ class Gen:
             spk = r.choice((b'\xac', b'\x21' + PK + b'\xac', b'\x76\x76\x6d\xac', b'\xad\x51'))
             return self.emit('verify %d %d %s:%d' % (t, idx, hx(spk), ht & 0xff))
         if k < 0.88:       # blocks and headers
+            bh = self.pick(lambda x: x['kind'] in ('blk', 'hdr'))
+            if bh is not None and r.random() < 0.45:
+                # the header of a block / a header with the same fields / a block with the same header and another vtx
+                if r.random() < 0.4:
+                    return self.emit('gethdr %d' % bh, dict(kind='hdr', mut=False))
+                txs = [self.any_tx() for _ in range(r.choice((0, 0, 1, 2)))]
+                return self.emit('newblkfrom %d %s' % (bh, ','.join(str(t) for t in txs if t is not None)),
+                                 dict(kind='blk', mut=False))
             if r.random() < 0.3:
                 return self.emit('newhdr ' + s_hdr((self.version(True), self.h32(r.random() < 0.1), self.h32(), self.u32(),
                                                     self.u32(), self.u32())), dict(kind='hdr', mut=False))
@@ -968,7 +1047,7 @@ class Gen:
         return ';'.join(self.ops)
 
 
-def directed(rng, pool, which):
+def directed(rng, pool, which, cap=100):
     """the aliasing-sensitive sequences, with random values"""
     g = Gen(rng, pool)
     r = rng
@@ -1061,6 +1140,27 @@ def directed(rng, pool, which):
         g.emit('repin %d 0 %s' % (c, s_txin(g.txin())))
         g.emit('setwitc %d %s %s' % (a, s_wit(g.witness(nin) or [[b'\x01']] * nin), r.choice(('ll', 'lt', 'tl'))))
         g.emit('sighash %d %s 1 %d' % (c, hx(g.script(True)), r.choice((1, 3, 0x81))))
+    elif which == 12:   # blocks, headers and header-only blocks with the SAME header fields: `==`, `!=`, hash() across them
+        a = g.new_tx(True, nin=nin, nout=nout)
+        b = g.new_tx(False, nin=1, nout=1)
+        hv = (g.version(), g.h32(), bytes(32), g.u32(), g.u32(), g.u32())
+        blk = g.emit('newblk %s %d,%d' % (s_hdr(hv), a, b), dict(kind='blk', mut=False))
+        if r.random() < 0.5:
+            g.emit('hash %d' % blk)          # cache filled before / after the twins are compared
+        hd = g.emit('gethdr %d' % blk, dict(kind='hdr', mut=False))
+        b0 = g.emit('newblkfrom %d ' % blk, dict(kind='blk', mut=False))             # vtx = (), explicit merkle root
+        g.emit('newblkfrom %d %d' % (blk, a), dict(kind='blk', mut=False))           # one tx of the two: merkle mismatch
+        g.emit('newblkfrom %d %d,%d' % (hd, a, b), dict(kind='blk', mut=False))      # the same block again
+        g.emit('gethdr %d' % r.choice((hd, b0)), dict(kind='hdr', mut=False))
+        b1 = g.emit('newblk %s %d' % (s_hdr(hv), a), dict(kind='blk', mut=False))    # one tx vs two, own merkle root
+        g.emit('newblkfrom %d %d,%d' % (b1, a, a), dict(kind='blk', mut=False))      # duplicated tx: same merkle root
+        g.emit('newblkfrom %d ' % b1, dict(kind='blk', mut=False))
+        g.emit('newhdr ' + s_hdr(hv), dict(kind='hdr', mut=False))
+        x, y = r.sample((blk, hd, b0, b1), 2)
+        g.emit('eq %d %d' % (x, y))
+        g.emit('pyhash %d' % x)
+        g.emit('eq %d %d' % (y, x))
+        g.emit('snap %d' % blk)
     elif which == 11:   # D23: immutable-class objects built over a caller's list / mutable outpoint: snapshot, cache,
         #                 then in-place edits of the part that was handed in
         tv = g.tx(nin=nin, nout=nout)
@@ -1128,7 +1228,8 @@ def directed(rng, pool, which):
         else:
             muts = ['set %d nValue %d' % (u, g.value()), 'set %d scriptPubKey %s' % (u, hx(g.script()))]
         for m in r.sample(muts, min(len(muts), r.choice((2, 4, len(muts))))):
-            g.emit(m)
+            if len(g.ops) < cap:      # quick tier: bounded history length (the cost of a history is quadratic in it)
+                g.emit(m)
     for _ in range(r.randrange(4)):
         g.random_op()
     return g.history()
@@ -1150,7 +1251,7 @@ ALPHABET = [
     'newblk ' + s_hdr((2, H32[0], H32[0], 1, 2, 3)) + ' 0',
     'setref 1 0 0.0', 'appref 0.0 1.0.0', 'setref 1.0.0 0 0.0.0.0', 'newtxfrom 0.0 0.1 3 2 -',
     'newtxd 1 0 ' + '|'.join(s_txin(i) for i in TXA['vin']) + ' ' + '|'.join(s_txout(o) for o in TXA['vout']),
-    'wlapp 0.2 1:07', 'newcin 0.0.0.0 51 5',
+    'wlapp 0.2 1:07', 'newcin 0.0.0.0 51 5', 'gethdr 1', 'newblkfrom 1 ',
 ]
 
 
@@ -1170,7 +1271,8 @@ class C09(Prop):
         'immutable_setref_rejected_ext', 'immutable_slots_stable_ext', 'immutable_value_stable_ext',
         'immutable_value_stable_run_ext', 'getHash_reflects_value_ext', 'ser_reflects_value_ext',
         'immutable_reach_reachable_ext', 'witness_list_edit_rejected_ext', 'witness_stack_edit_rejected_ext',
-        'refines_alias_spec_partial', 'rawSigHash_eq_sighash_model_partial', 'validTx_eq_fromTxOk', 'runX_base')]
+        'refines_alias_spec_partial', 'rawSigHash_eq_sighash_model_partial', 'validTx_eq_fromTxOk', 'runX_base',
+        'eq_true_ser_hash')]
     anchors = [('bitcoin/core/serialize.py', q) for q in (
         'Serializable.GetHash', 'Serializable.__eq__', 'Serializable.__hash__',
         'ImmutableSerializable.__setattr__', 'ImmutableSerializable.__delattr__', 'ImmutableSerializable.GetHash',
@@ -1194,10 +1296,13 @@ class C09(Prop):
                    'refines_alias_spec_partial, histories without by-reference operations); on the extended catalogue '
                    '"a mutable copy is unaffected by later edits elsewhere" is copy_fresh_ext + T2',
                    'the container-kind operations (mkseq / newctxfrom / setwitc) are T2 only']
-    rule = ('histories: 12 directed aliasing templates (incl. every container kind for vin/vout/witness: list, tuple, '
+    rule = ('histories: 13 directed aliasing templates (incl. every container kind for vin/vout/witness: list, tuple, '
             'subclasses, iterators)  with random values + random histories of 1..40 ops over the '
             'whole catalogue (boundary/mined field values incl. out-of-range ones); thorough: all histories of length '
-            '<= 3 over a 38-op alphabet; after every step every live object is observed; non-trivial = at least one '
+            '<= 3 over a 40-op alphabet; after every step every live object is observed (observer order alternates so '
+            'that == and hash() are taken before and after GetHash fills the cache); at the end of every history '
+            '== / != / eq-hash coherence for ALL ordered pairs of the first 40 live objects, across classes; '
+            'non-trivial = at least one '
             'object created and one mutation/copy/sighash executed; distinct by history text')
 
     def setup(self):
@@ -1220,17 +1325,20 @@ class C09(Prop):
         pool = list(self.pool)
         i = 0
         for rep in range(60 if big else 12):
-            for which in range(12):
+            for which in range(13):
                 i += 1
                 if i % nshards != shard:
                     continue
-                yield mk('c09.run', directed(rng, pool, which), tag='directed%d' % which)
+                yield mk('c09.run', directed(rng, pool, which, 100 if big else 36), tag='directed%d' % which)
         for rep in range(6000 if big else 480):
             i += 1
             if i % nshards != shard:
                 continue
             g = Gen(rng, pool)
-            n = rng.choice((1, 2, 3, 5, 8, 13, 20, 30, 40)) if rng.random() < 0.5 else rng.randrange(1, 41)
+            if big:
+                n = rng.choice((1, 2, 3, 5, 8, 13, 20, 30, 40)) if rng.random() < 0.5 else rng.randrange(1, 41)
+            else:
+                n = rng.choice((1, 2, 3, 5, 8, 13, 20, 30)) if rng.random() < 0.5 else rng.randrange(1, 31)
             for _ in range(n):
                 g.random_op()
             yield mk('c09.run', g.history(), tag='random')
@@ -1320,11 +1428,13 @@ def drop_step(ops, k):
                 w[2] = _renumber_target(w[2], k) if w[1] is not None else None
                 if w[2] is None:
                     return None
-            elif kind == 'newblk':
+            elif kind in ('newblk', 'newblkfrom'):
                 ns = [int(x) for x in w[2].split(',')] if w[2] else []
                 if k in ns:
                     return None
                 w[2] = ','.join(str(x - 1 if x > k else x) for x in ns)
+                if kind == 'newblkfrom':
+                    w[1] = _renumber_target(w[1], k)
             elif kind in ('newtx', 'newctx', 'newhdr', 'newtxd'):
                 pass
             elif kind == 'mkseq':
